@@ -328,11 +328,14 @@ class RealTunnel:
         except BaseException:
             self.close()
             raise
+        self.real_got_udp_open = self.smux.got_udp_open      # kept for checks that put a datagram flow next to the streams
         self.smux.got_dns_req = None
         self.smux.got_udp_open = None
         self.real_got_host_req = self.smux.got_host_req      # kept for checks that drive the host-watch path
         self.smux.got_host_req = lambda data: None
         self.ready = ([], [], [])
+        self.cur_handlers = None
+        self.dead_at_select = []
 
         class SelShim:
             def __init__(s, real):
@@ -340,6 +343,12 @@ class RealTunnel:
 
             def select(s, r, w, x, *a):
                 rr, ww, xx = self.ready
+                # this is where the real loop may sleep for as long as nothing happens: a handler that finished
+                # must have left the list by now (its sockets are closed only once nothing refers to it any more)
+                if self.cur_handlers is not None:
+                    dead = [h for h in self.cur_handlers if not getattr(h, 'ok', True)]
+                    if dead:
+                        self.dead_at_select.append(len(dead))
                 # a tunnel read file is readable only while bytes are waiting in it
                 return ([i for i in r if i in rr and (not isinstance(i, DummyFile) or i.data)],
                         [i for i in w if i in ww], [])
@@ -539,7 +548,11 @@ class RealTunnel:
         hl = self.chandlers if end == 'c' else self.shandlers
         mux = self.cmux if end == 'c' else self.smux
         self.ready = ([], [], [])
-        self._guard(end, lambda: self.ssnet.runonce(hl, mux))
+        self.cur_handlers = hl
+        try:
+            self._guard(end, lambda: self.ssnet.runonce(hl, mux))
+        finally:
+            self.cur_handlers = None
         self._reap()
 
     def round(self, end, nframes, ready_flows, iov):
@@ -619,9 +632,11 @@ class RealTunnel:
             mux.got_packet = gp
             hooked = True
         order = [i for h in hl for i, f in enumerate(self.flows) if h is (f.cproxy if end == 'c' else f.sproxy)]
+        self.cur_handlers = hl
         try:
             self._guard('client' if end == 'c' else 'server', lambda: self.ssnet.runonce(hl, mux))
         finally:
+            self.cur_handlers = None
             Proxy.callback = orig_cb
             if hooked:
                 del mux.got_packet
